@@ -12,6 +12,7 @@ package main
 import (
 	"fmt"
 	"hash/fnv"
+	"reflect"
 	"strings"
 	"sync"
 	"sync/atomic"
@@ -180,6 +181,80 @@ func hashBytes(parts ...[]byte) uint64 {
 	return h.Sum64()
 }
 
+// guardedMarshal / guardedUnmarshal turn a panic of the code under test into
+// an error, so that it is reported as a violation with a replay file.
+func guardedMarshal(cfg codecCfg, v interface{}) (data []byte, err error) {
+	defer func() {
+		if p := recover(); p != nil {
+			err = fmt.Errorf("panic: %v", p)
+		}
+	}()
+	return cfg.Marshal(v)
+}
+
+func guardedUnmarshal(cfg codecCfg, data []byte, v interface{}) (err error) {
+	defer func() {
+		if p := recover(); p != nil {
+			err = fmt.Errorf("panic: %v", p)
+		}
+	}()
+	return cfg.Unmarshal(data, v)
+}
+
+// wantTypes: how many elements of each type the output must carry (nil when
+// the input is not a container or a single element).
+func wantTypes(in interface{}) map[string]int {
+	m := map[string]int{}
+	put := func(k string, n int) {
+		if n > 0 {
+			m[k] = n
+		}
+	}
+	switch x := in.(type) {
+	case *osm.OSM:
+		put("node", len(x.Nodes))
+		put("way", len(x.Ways))
+		put("relation", len(x.Relations))
+		put("changeset", len(x.Changesets))
+		put("note", len(x.Notes))
+		put("user", len(x.Users))
+	case *osm.Node:
+		put("node", 1)
+	case *osm.Way:
+		put("way", 1)
+	case *osm.Relation:
+		put("relation", 1)
+	case *osm.Changeset:
+		put("changeset", 1)
+	case *osm.Note:
+		put("note", 1)
+	case *osm.User:
+		put("user", 1)
+	default:
+		return nil
+	}
+	return m
+}
+
+// typeHistogram counts the "type" strings of a document's elements, or of a
+// single element object. Elements without a type are left to the shape oracle.
+func typeHistogram(g interface{}) map[string]int {
+	m := map[string]int{}
+	top, _ := g.(map[string]interface{})
+	els, isDoc := top["elements"].([]interface{})
+	if !isDoc {
+		els = []interface{}{g}
+	}
+	for _, e := range els {
+		if eo, ok := e.(map[string]interface{}); ok {
+			if t, ok := eo["type"].(string); ok && t != "" {
+				m[t]++
+			}
+		}
+	}
+	return m
+}
+
 func newOf(kind int) interface{} {
 	switch kind {
 	case kNode:
@@ -206,7 +281,7 @@ func (rn *runner) checkCase(c Case, sl *slot) {
 
 	// marshalled value → shape → back
 	roundTrip := func(label string, in interface{}, out interface{}, root string, shape func(v interface{}, where string) []shapeErr) {
-		data, err := rn.cfg.Marshal(in)
+		data, err := guardedMarshal(rn.cfg, in)
 		if err != nil {
 			rep("roundtrip/marshal-error/"+label, fmt.Sprintf("marshal failed: %v", err))
 			return
@@ -228,7 +303,12 @@ func (rn *runner) checkCase(c Case, sl *slot) {
 			rep(key, se.What+" in "+clip(string(data)))
 		}
 		// the decoder may keep references into its input (nocopyRawMessage)
-		if err := rn.cfg.Unmarshal(append([]byte(nil), data...), out); err != nil {
+		if want := wantTypes(in); want != nil {
+			if got := typeHistogram(g); !reflect.DeepEqual(got, want) {
+				rep("shape/element-type-wrong", fmt.Sprintf("elements by type: got %v want %v in %s", got, want, clip(string(data))))
+			}
+		}
+		if err := guardedUnmarshal(rn.cfg, append([]byte(nil), data...), out); err != nil {
 			key := "roundtrip/unmarshal-error/" + label
 			if c.hasTopBounds() && strings.Contains(err.Error(), "could not find type") {
 				key = "roundtrip/osm-top-level-bounds"
@@ -249,7 +329,7 @@ func (rn *runner) checkCase(c Case, sl *slot) {
 		if _, err := parseGeneric([]byte(text)); err != nil {
 			kit.Fatalf("C05 document writer produced invalid JSON (%v): %s", err, text)
 		}
-		if err := rn.cfg.Unmarshal([]byte(text), out); err != nil {
+		if err := guardedUnmarshal(rn.cfg, []byte(text), out); err != nil {
 			rep("decode/unmarshal-error/"+label, fmt.Sprintf("valid osmjson rejected: %v: %s", err, clip(text)))
 			return
 		}
